@@ -18,6 +18,7 @@ REG.ghosts = {
     "report_written": "bool",            # a CodeTF report file has been written completely during this call
     "last_run_status": "int",            # value returned by the last completed codemodder.run()
     "pool_bounds": "list[int]",          # max_workers of every thread pool created (-1: unbounded / library default)
+    "mapped": "list[list[Opaque]]",      # the work lists handed to executor.map, in call order
     "events": "list[str]",               # ordered trace of codemod applications ("A:<id>") and dependency processing ("D:<id>")
 }
 
